@@ -45,17 +45,19 @@ def diversify(rng, multi):
 
 
 def big_case(rng, country):
-    """more rows on one sheet than the template has: exercises append_rows (two assets share the sheet)"""
+    """far more rows on one sheet than the template has (102): exercises append_rows and the row counter shared by
+    two assets; n is large enough that a sheet sized with fewer rows than fractions, or a row counter advancing by
+    more than one, runs out of rows"""
     def asset(name, n, t0, ty):
         ins = [{"row": 3, "ts": [t0, 0], "exch": 0, "holder": 0, "type": "BUY", "spot": 10 * hist.U, "crypto_in": (n + 5) * hist.U}]
-        outs = [{"row": 7 + k, "ts": [t0 + (k + 1) * hist.DAY, 0], "exch": 0, "holder": 0, "type": ty if k % 7 else "LOST", "spot": 20 * hist.U,
+        outs = [{"row": 7 + k, "ts": [t0 + (k + 1) * hist.DAY, 0], "exch": 0, "holder": 0, "type": ty, "spot": 20 * hist.U,
                  "crypto_out_no_fee": hist.U, "crypto_fee": 0} for k in range(n)]
         return {"asset": name, "exchanges": ["E0"], "holders": ["H0"], "ins": ins, "outs": outs, "intras": []}
-    n = rng.range(100, 140)
-    ty = rng.choice(["SELL", "FEE2", "GIFT"])
-    a = asset("BIG", n, hist.day_us(2019, 1, 1), "SELL" if ty == "FEE2" else ty)
+    n = rng.range(150, 230)
+    ty = rng.choice(["SELL", "FEE2", "GIFT", "DONATE"])
+    a = asset("BIG", n, hist.day_us(2015, 1, 1), "SELL" if ty == "FEE2" else ty)
     b = asset("AAA", rng.range(1, 9), hist.day_us(2019, 6, 1), "SELL" if ty == "FEE2" else ty)
-    if ty == "FEE2":     # Investment Expenses: three types share one sheet
+    if ty == "FEE2":     # Investment Expenses: several types share one sheet
         for c in (a, b):
             for k, r in enumerate(c["outs"]):
                 if k % 3 == 0:
@@ -71,7 +73,7 @@ def gen_cases(tier, rng):
     cases = []
     for k in range(n):
         country = "ie" if k % 3 == 2 else "us"
-        big = (k % 80 == 5)
+        big = (k % 80 in (5, 45))           # quick: two us, two ie
         if big:
             m = big_case(rng, country)
         else:
@@ -307,6 +309,8 @@ def run(tier, build, replay=None):
             mism += 1
             out.violation("model and implementation disagree on the tax report: " + " | ".join(diffs[:6]), job,
                           tags={"correspondence"}, found_input=False)
+    if not proofs.ok and build.failed:
+        proofs.log += "\nfiles that did not compile: " + ", ".join(build.failed) + "\n" + core._errors_of(build.make_log)[-1500:]
     core.proofs_verdict(out, proofs, build, "C14.v")
     for k in ("assets", "window", "methods", "types"):
         dist[k] = dict(sorted((str(a), b) for a, b in dist[k].items()))
@@ -314,7 +318,7 @@ def run(tier, build, replay=None):
         "evaluations": len(valid),
         "distinct_nontrivial": len(nontriv),
         "rule": "multi-asset inputs (1-4 assets over shared exchanges/holders, all 14 transaction types over the run, windows none/from/to/both incl. empty, "
-                "us with single methods and multi-year schedules, ie fifo, one 100+ row sheet per 80 cases) -> one report per fresh interpreter through "
+                "us with single methods and multi-year schedules, ie fifo, two 150+ row sheets per 80 cases) -> one report per fresh interpreter through "
                 "the real plugin; the .ods is compared cell by cell with the Coq model and judged against the property text by an independent oracle; "
                 "non-trivial = two assets share a sheet or at least three sheets carry rows",
         "samples": [valid[0][0]] if valid else [],
